@@ -203,3 +203,93 @@ def h_wide(ctx):
         return {'what': 'rejected with another exception than PathExprParsingError', 's': s, 'exc': repr(e)[:200]}
     ctx.witness('accepted')
     return None
+
+
+def _sym_slice(ctx, tag, lo=-2, hi=2):
+    """A slice object or an int, every part a solver integer (or absent)."""
+    kind = ctx.choice(tag + 'kind', 3)      # 0: int index, 1: start:stop, 2: start:stop:step
+    if kind == 0:
+        return ctx.concrete(ctx.int(tag + 'i', 0, hi), 0, hi)    # (negative ints are normalised to slices by the parser)
+    parts = []
+    for k in range(kind + 1):
+        parts.append(ctx.concrete(ctx.int('%sp%d' % (tag, k), lo, hi), lo, hi) if ctx.bool('%sh%d' % (tag, k)) else None)
+    if len(parts) == 3 and parts[2] is not None and bool(parts[2] == 0):
+        ctx.assume(False)                   # a zero step is not a slice
+    return slice(*parts)
+
+
+def h_print_roundtrip(ctx):
+    """
+    Printing a path and parsing the printout gives the same path - for path objects whose slice numbers are solver
+    integers (start / stop / step each present or absent, zero and negative values included), i.e. independent of
+    the string-length bound of h_parse.
+    """
+    from pybufrkit.dataquery import NodePath, PathComponent
+    path = NodePath('dummy')
+    which = ctx.params.get('which', 'subset')     # the slice whose numbers are solver integers (the other is [::])
+    subset = _sym_slice(ctx, 's') if which == 'subset' else slice(None, None, None)
+    path.subset_slice = subset
+    seps = ['/', '.', '>']
+    comps = []
+    n = 1 + ctx.choice('ncomp', ctx.params.get('max_components', 2))
+    for k in range(n):
+        sep = seps[ctx.choice('sep%d' % k, 3)] if k else seps[ctx.choice('sep0', 2) * 2]    # first: '/' or '>'
+        slc = _sym_slice(ctx, 'c%d' % k) if (which == 'component' and k == n - 1) else slice(None, None, None)
+        path.add_component(PathComponent(sep, ['001001', 'A'][k % 2], slc))
+        comps.append((sep, ['001001', 'A'][k % 2], slc))
+    try:
+        printed = str(path)
+    except Exception as e:
+        return {'what': 'printing a path raised', 'exc': repr(e)[:200]}
+    try:
+        got_subset, got_comps, _ = _real_parse(printed)
+    except Exception as e:
+        return {'what': 'printout of a path does not parse', 'printed': printed, 'exc': repr(e)[:200]}
+
+    def same_slice(a, b):
+        if isinstance(a, slice) != isinstance(b, slice):
+            return False
+        if isinstance(a, slice):
+            return all((x is None and y is None) or (x is not None and y is not None and bool(x == y))
+                       for x, y in ((a.start, b.start), (a.stop, b.stop), (a.step, b.step)))
+        return bool(a == b)
+    if not same_slice(got_subset, subset):
+        return {'what': 'printing and re-parsing changes the subset slice', 'printed': printed, 'slice': repr(subset), 'got': repr(got_subset)}
+    if len(got_comps) != len(comps):
+        return {'what': 'printing and re-parsing changes the number of components', 'printed': printed}
+    for (s1, i1, c1), (s2, i2, c2) in zip(got_comps, comps):
+        if s1 != s2 or i1 != i2 or not same_slice(c1, c2):
+            return {'what': 'printing and re-parsing changes a component', 'printed': printed, 'exp': repr((s2, i2, c2)), 'got': repr((s1, i1, c1))}
+    ctx.witness('roundtrip')
+    return None
+
+
+VALID_AFTER = ['/001001', '@[0] > A', 'A[1]/0']
+
+
+def h_reuse(ctx):
+    """
+    A parser object that has just processed ANY string (accepted or rejected, symbolic) parses the next, valid, string
+    exactly like a fresh parser: nothing of an earlier expression survives in the parser.
+    """
+    first = ctx.symstr('first', ctx.params.get('maxlen', 4), '@[]:/A1 ')
+    second = VALID_AFTER[ctx.choice('second', len(VALID_AFTER))]
+    parser = NodePathParser()
+    try:
+        parser.parse(first)
+        ctx.witness('first-accepted')
+    except PathExprParsingError:
+        ctx.witness('first-rejected')
+    except Exception as e:
+        return None     # h_parse's subject
+    fresh = NodePathParser().parse(second)
+    try:
+        p = parser.parse(second)
+    except Exception as e:
+        return {'what': 'a valid expression is rejected by a parser that was used before', 'first': first, 'second': second, 'exc': repr(e)[:200]}
+    a = (p.subset_slice, [(c.separator, c.id, c.slice) for c in p.components])
+    b = (fresh.subset_slice, [(c.separator, c.id, c.slice) for c in fresh.components])
+    if a != b:
+        return {'what': 'the result of parsing depends on what the parser object processed before', 'first': first, 'second': second,
+                'got': repr(a), 'fresh': repr(b)}
+    return None
